@@ -281,7 +281,8 @@ class StateTriggerDecorator(TriggerDecorator, ExpressionDecorator, AutoKwargsDec
                 elif ident_values_changed(self.last_func_args, self.state_trig_ident):
                     trig_ok = await self._is_trig_ok()
                 else:
-                    trig_ok = False
+                    # nothing that is watched changed (eg, attribute-only update): not an evaluation
+                    continue
                 await self._check_new_state(trig_ok)
             except TimeoutError:
                 await self._check_state_hold()
